@@ -897,4 +897,151 @@ theorem ResOK.erEnd_le {src : Str} {r : ER} (h : ResOK src r) : erEnd r ≤ (src
   unfold erEnd
   omega
 
+
+/-! ### separate units: appended after the loop's results, disjoint from them -/
+
+/-- two results share no character position -/
+def Disj (a b : ER) : Prop := ∀ k, a.start ≤ k → k < a.start + a.len → b.start ≤ k → k < b.start + b.len → False
+
+theorem markRange_length (marks : List Bool) (s l : Nat) : (markRange marks s l).length = marks.length := by
+  simp [markRange]
+
+theorem markRange_getD (marks : List Bool) (s l k : Nat) :
+    (markRange marks s l).getD k false = (marks.getD k false || (decide (s ≤ k) && decide (k < s + l) && decide (k < marks.length))) := by
+  unfold markRange
+  simp only [List.getD_eq_getElem?_getD, List.getElem?_mapIdx]
+  by_cases hk : k < marks.length
+  · simp [List.getElem?_eq_getElem hk, hk]
+  · have : marks[k]? = none := List.getElem?_eq_none (by omega)
+    simp [this, hk]
+
+/-- marks that only grow and cover the loop's results -/
+def Covers (srcLen : Nat) (res : List ER) (marks : List Bool) : Prop :=
+  marks.length = srcLen ∧ ∀ r ∈ res, ∀ k, r.start ≤ k → k < r.start + r.len → k < srcLen → marks.getD k false = true
+
+theorem Covers.markRange {srcLen : Nat} {res : List ER} {marks : List Bool} (h : Covers srcLen res marks) (s l : Nat) :
+    Covers srcLen res (markRange marks s l) := by
+  refine ⟨by rw [markRange_length]; exact h.1, ?_⟩
+  intro r hr k h1 h2 h3
+  rw [markRange_getD, h.2 r hr k h1 h2 h3]; rfl
+
+theorem foldl_markRange_covers (srcLen : Nat) (res : List ER) :
+    Covers srcLen res (res.foldl (fun mk e => markRange mk e.start e.len) (List.replicate srcLen false)) := by
+  have gen : ∀ (l : List ER) (marks : List Bool), marks.length = srcLen →
+      (l.foldl (fun mk e => markRange mk e.start e.len) marks).length = srcLen ∧
+      (∀ k, marks.getD k false = true → (l.foldl (fun mk e => markRange mk e.start e.len) marks).getD k false = true) ∧
+      ∀ r ∈ l, ∀ k, r.start ≤ k → k < r.start + r.len → k < srcLen →
+        (l.foldl (fun mk e => markRange mk e.start e.len) marks).getD k false = true := by
+    intro l
+    induction l with
+    | nil => intro marks h; exact ⟨h, fun k hk => hk, by intro r hr; simp at hr⟩
+    | cons e es ih =>
+      intro marks h
+      simp only [List.foldl_cons]
+      obtain ⟨a, b, c⟩ := ih (markRange marks e.start e.len) (by rw [markRange_length]; exact h)
+      refine ⟨a, ?_, ?_⟩
+      · intro k hk; apply b; rw [markRange_getD, hk]; rfl
+      · intro r hr k h1 h2 h3
+        rcases List.mem_cons.mp hr with rfl | hr
+        · apply b; rw [markRange_getD]; simp [h1, h2, h, h3]
+        · exact c r hr k h1 h2 h3
+  obtain ⟨a, _, c⟩ := gen res (List.replicate srcLen false) (by simp)
+  exact ⟨a, c⟩
+
+theorem allFree_spec (marks : List Bool) (s l : Nat) (h : allFree marks s l = true) :
+    ∀ i, i < l → marks.getD (s + i) false = false := by
+  unfold allFree at h
+  rw [List.all_eq_true] at h
+  intro i hi
+  have := h i (List.mem_range.mpr hi)
+  simpa using this
+
+/-- the extract result of a separate-regex match -/
+def sepER (m : Nat × Str) : ER := ⟨m.1, m.2.length, m.2, none⟩
+
+theorem sepStep_spec (srcLen : Nat) (ambTerm : Str) (nonUnit : List (Nat × Nat)) (res0 : List ER)
+    (acc : List Bool × List ER) (m : Nat × Str) (hc : Covers srcLen res0 acc.1) :
+    Covers srcLen res0 (sepStep ambTerm nonUnit acc m).1 ∧
+    ((sepStep ambTerm nonUnit acc m).2 = acc.2 ∨
+      ((sepStep ambTerm nonUnit acc m).2 = acc.2 ++ [sepER m] ∧ m.2 ≠ [] ∧ ∀ r ∈ res0, r.start + r.len ≤ srcLen → Disj (sepER m) r)) := by
+  unfold sepStep
+  by_cases h1 : m.2.isEmpty = true
+  · simp [h1, hc]
+  · simp only [h1, Bool.false_eq_true, if_false]
+    by_cases h2 : allFree acc.1 m.1 m.2.length = true
+    · simp only [h2, if_true]
+      have hfree := allFree_spec _ _ _ h2
+      have hd : ∀ r ∈ res0, r.start + r.len ≤ srcLen → Disj (sepER m) r := by
+        intro r hr hin k a1 a2 b1 b2
+        simp only [sepER] at a1 a2
+        have ht := hc.2 r hr k b1 b2 (by omega)
+        have hf := hfree (k - m.1) (by omega)
+        rw [show m.1 + (k - m.1) = k by omega] at hf
+        rw [ht] at hf; cases hf
+      split
+      · exact ⟨hc.markRange _ _, Or.inl rfl⟩
+      · exact ⟨hc.markRange _ _, Or.inr ⟨rfl, by simpa using h1, hd⟩⟩
+    · simp [h2, hc]
+
+/-- `_extract_separate_units` appends: the loop's results stay in front, in order; what is added are extract results of
+non-empty separate-regex matches, in match order, each sharing no position with any result of the loop -/
+theorem separateUnits_spec (srcLen : Nat) (ambTerm : Str) (nonUnit : List (Nat × Nat)) (res : List ER)
+    (sep : List (Nat × Str)) :
+    ∃ added, separateUnits srcLen ambTerm nonUnit res sep = res ++ added ∧
+      added.Sublist (sep.map sepER) ∧
+      ∀ u ∈ added, u.text ≠ [] ∧ u.data = none ∧ ∀ r ∈ res, r.start + r.len ≤ srcLen → Disj u r := by
+  unfold separateUnits
+  have gen : ∀ (sep : List (Nat × Str)) (acc : List Bool × List ER) (pre : List ER), Covers srcLen res acc.1 →
+      acc.2 = res ++ pre →
+      ∃ added, (sep.foldl (sepStep ambTerm nonUnit) acc).2 = res ++ pre ++ added ∧ added.Sublist (sep.map sepER) ∧
+        ∀ u ∈ added, u.text ≠ [] ∧ u.data = none ∧ ∀ r ∈ res, r.start + r.len ≤ srcLen → Disj u r := by
+    intro sep
+    induction sep with
+    | nil => intro acc pre _ h; exact ⟨[], by simp [h], List.Sublist.refl _, by simp⟩
+    | cons m ms ih =>
+      intro acc pre hc h
+      simp only [List.foldl_cons]
+      obtain ⟨hc', hs⟩ := sepStep_spec srcLen ambTerm nonUnit res acc m hc
+      rcases hs with hs | ⟨hs, hne, hd⟩
+      · obtain ⟨added, e, sl, pr⟩ := ih _ pre hc' (by rw [hs, h])
+        exact ⟨added, e, sl.trans (by simp), pr⟩
+      · obtain ⟨added, e, sl, pr⟩ := ih _ (pre ++ [sepER m]) hc' (by rw [hs, h, List.append_assoc])
+        refine ⟨sepER m :: added, by rw [e]; simp, by simpa using sl.cons_cons (sepER m), ?_⟩
+        intro u hu
+        rcases List.mem_cons.mp hu with rfl | hu
+        · exact ⟨by simpa [sepER] using hne, rfl, hd⟩
+        · exact pr u hu
+  obtain ⟨added, e, sl, pr⟩ := gen sep (_, res) [] (foldl_markRange_covers srcLen res) (by simp)
+  exact ⟨added, by simpa using e, sl, pr⟩
+
+
+/-! ### `expand_half_suffix` -/
+
+/-- what `expand_half_suffix` can do to one result: nothing, or append the one half-number whose (current) start equals
+the result's end -/
+theorem expandHalf_cases (res : List ER) (nums : List Num) (half : List Bool) :
+    ∀ r' ∈ expandHalf res nums half, ∃ r ∈ res, r' = r ∨
+      ∃ mr ∈ nums, mr.start = r.start + r.len ∧ r' = { r with len := r.len + mr.len, text := r.text ++ mr.text } := by
+  intro r' hr'
+  unfold expandHalf at hr'
+  simp only [] at hr'
+  split at hr'
+  · exact ⟨r', hr', Or.inl rfl⟩
+  · rw [List.mem_map] at hr'
+    obtain ⟨r, hr, e⟩ := hr'
+    refine ⟨r, hr, ?_⟩
+    split at e
+    · rename_i mr hf
+      right
+      have hm : mr ∈ List.filter (fun mr => mr.start == r.start + r.len)
+          ((nums.zip half).filterMap fun nb => if nb.2 then some nb.1 else none) := by rw [hf]; simp
+      obtain ⟨h1, h2⟩ := List.mem_filter.mp hm
+      obtain ⟨nb, hnb, hq⟩ := List.mem_filterMap.mp h1
+      have : nb.1 = mr := by
+        split at hq
+        · simpa using hq
+        · simp at hq
+      refine ⟨mr, this ▸ (List.of_mem_zip hnb).1, by simpa using h2, e.symm⟩
+    · exact Or.inl e.symm
+
 end RTV.UnitExtract
